@@ -639,6 +639,9 @@ def one(ctx: Ctx, case: dict[str, Any], label: str) -> None:
 
 
 def shard(ctx: Ctx) -> None:
+    from vf.sim import device as _device
+
+    _device.AUTO_ROTATE = True   # chunking of the device's stream rotates: as written / replies coalesced / cut into 1..8-byte pieces
     rng = ctx.rng.__class__(f"C18/{ctx.seed}")
     idx = 0
     for case in backoff_ladders():
